@@ -112,6 +112,8 @@ def p10(v, case, obs):
                 rel_dup.add(op[2])   # a second PUBREL before the PUBCOMP: both may be answered
             rel_pending.add(op[2])
         if op[0] == 1 and op[1] in (6, 7):
+            if op[2] in busy:
+                peer_bad = True      # the peer reuses an id before it saw the end of the exchange
             busy.add(op[2])          # SUBSCRIBE / UNSUBSCRIBE ids share the id space
         for (t, pid, r) in wire:
             if r == 0x91 and t in (0x40, 0x50, 0x90, 0xB0):
